@@ -158,6 +158,14 @@ func c02Opts(r *fw.Rand, tier string) gen.Opts {
 		o.MaxDepth = 2 + r.Intn(4)
 	}
 	o.Big = r.P(1, 12)
+	if o.Big {
+		// (a value of kilobytes that a recursive template hands down through content params is escaped again at every
+		// level and grows by half each time: the language says so, and the render ends, but not within any budget)
+		o.Recursion = false
+		if o.MaxDepth > 3 {
+			o.MaxDepth = 3
+		}
+	}
 	return o
 }
 
@@ -210,6 +218,12 @@ func init() {
 				segs, st := ref.Render(prog.B, prog.Entry, d, ref.RenderOpts{IJ: prog.IJ})
 				if st == ref.OOD {
 					ctx.Obs("renders_out_of_domain", 1)
+					continue
+				}
+				if n := len(ref.Text(segs)); n > 2<<20 || len(segs) > 200000 {
+					// (an output of megabytes - nested loops and content blocks multiply - is not judged: the work and the
+					// memory of such a render are outside every budget the process monitors use)
+					ctx.Obs("renders_too_large_not_judged", 1)
 					continue
 				}
 				got, rerr := render(tofu, prog.Entry, d, prog.IJ, nil)
